@@ -326,14 +326,20 @@ def term_apply(state, codes):
     while i < n:
         c = codes[i]
         if c == 38 or c == 48 or c == 58:
-            if i + 2 < n and codes[i + 1] == 5:
-                st = state_set(st, sgr_group(c), (c, 5, codes[i + 2], -1, -1))
-                i += 3
-            elif i + 4 < n and codes[i + 1] == 2:
-                st = state_set(st, sgr_group(c), (c, 2, codes[i + 2], codes[i + 3], codes[i + 4]))
-                i += 5
+            if i + 1 < n and codes[i + 1] == 5:
+                if i + 2 < n:
+                    st = state_set(st, sgr_group(c), (c, 5, codes[i + 2], -1, -1))
+                    i += 3
+                else:
+                    i = n   # incomplete group (it runs to the end of the sequence): contributes nothing
+            elif i + 1 < n and codes[i + 1] == 2:
+                if i + 4 < n:
+                    st = state_set(st, sgr_group(c), (c, 2, codes[i + 2], codes[i + 3], codes[i + 4]))
+                    i += 5
+                else:
+                    i = n   # incomplete group
             else:
-                i += 1
+                i += 1      # an introducer that starts no group contributes nothing
         else:
             k = sgr_kind(c)
             if k == K_RESET:
